@@ -116,7 +116,8 @@ func (c *controlConn) heartBeat() {
 		case error:
 			goto reconn
 		default:
-			panic(fmt.Sprintf("gocql: unknown frame in response to options: %T", resp))
+			c.session.logger.Printf("gocql: control connection: unknown frame in response to options: %T\n", resp)
+			goto reconn
 		}
 
 	reconn:
